@@ -368,6 +368,16 @@ impl Router {
         self.connection_map.insert(client_id.clone(), connection_id);
         info!(connection_id, "Client connection registered");
 
+        // The subscriptions of a resumed session are in force again: register them under the
+        // new connection id (the old id was removed on disconnection), else UNSUBSCRIBE
+        // cannot find them.
+        for filter in self.connections[connection_id].subscriptions.iter() {
+            self.subscription_map
+                .entry(filter.clone())
+                .or_default()
+                .insert(connection_id);
+        }
+
         assert_eq!(self.ackslog.insert(ackslog), connection_id);
         assert_eq!(self.scheduler.add(tracker), connection_id);
 
